@@ -298,7 +298,23 @@ def tr_unsigned_val(ar_mod):
     (lw, t1), (vv, t2) = tr.expr(d["log_width"]), tr.expr(d["value"])
     if (tc, t1, t2) != ("bool", "Z", "Z"):
         raise TranslatorError("UnsignedIntVal expression types")
-    return (f"Definition unsigned_post_init (v width : Z) : res unit := if {c} then Ok tt else Raise AssertionError.\n"
+    # to_model: the text/binary envelope serialisation
+    tm = strip_doc(find_func(cls, "to_model").body)
+    if not (len(tm) == 1 and isinstance(tm[0], ast.Return) and isinstance(tm[0].value, ast.Call)
+            and _u(tm[0].value.func) == "model.Apply" and len(tm[0].value.args) == 2 and not tm[0].value.keywords
+            and _u(tm[0].value.args[0]) == "'arithmetic.int.const'" and isinstance(tm[0].value.args[1], ast.List)
+            and len(tm[0].value.args[1].elts) == 2):
+        raise TranslatorError("UnsignedIntVal.to_model shape")
+    margs = []
+    for a in tm[0].value.args[1].elts:
+        if not (isinstance(a, ast.Call) and _u(a.func) == "model.Literal" and len(a.args) == 1 and not a.keywords):
+            raise TranslatorError(f"UnsignedIntVal.to_model argument `{_u(a)}`")
+        t, ty = tr.expr(a.args[0])
+        if ty != "Z":
+            raise TranslatorError("UnsignedIntVal.to_model argument type")
+        margs.append(t)
+    return (f"Definition unsigned_model (v width : Z) : Z * Z := ({margs[0]}, {margs[1]}).  (* arithmetic.int.const <log_width> <value> *)\n"
+            f"Definition unsigned_post_init (v width : Z) : res unit := if {c} then Ok tt else Raise AssertionError.\n"
             f"Definition unsigned_payload (v width : Z) : Z * Z := ({lw}, {vv}).  (* (log_width, value) of ConstInt *)")
 
 
